@@ -17,13 +17,37 @@ EXPL = ("R08.1 constant propagation of the three skip_* switches through builder
         "which every validation switch that consults the registry is known to be off. "
         "Not decided: completeness of the defect list for arbitrary entries.")
 CR = c02.CR
-SW = ("skip_validate_unique", "skip_validate_dimensions_exist", "skip_validate_names")
+SW_DEFAULT = ("skip_validate_unique", "skip_validate_dimensions_exist", "skip_validate_names")
+SW = SW_DEFAULT
+
+
+def switches(F):
+    """the validation switches by shape: the fields of the crate's all-bool struct (three or more flags) that a Format implementor keeps
+    in one of its fields -> (flag names, {holder adt: name of the field holding the switch struct})"""
+    c_ = getattr(F, "_val_switches", None)
+    if c_ is None:
+        flags, holders = SW_DEFAULT, {}
+        for d, a in F.adts.items():
+            if a["crate"] != CR or len(a["variants"]) != 1:
+                continue
+            fs = a["variants"][0]["fields"]
+            if len(fs) >= 3 and all(f["ty"] == "bool" for f in fs):
+                hs = {d2: f2["name"] for d2, a2 in F.adts.items() if a2["crate"] == CR and len(a2["variants"]) == 1
+                      for f2 in a2["variants"][0]["fields"] if f2["ty"] == d}
+                if hs:
+                    flags, holders = tuple(f["name"] for f in fs), hs
+        c_ = (flags, holders)
+        F._val_switches = c_
+    return c_
 
 
 def run(ctx):
+    global SW
     # ------------------------------------------------------------------ R08.1 on both profiles
     for prof in ("dbg", "rel"):
         F = ctx.facts(prof)
+        SW, holders = switches(F)
+        VF = sorted(set(holders.values()))[0] if holders else "validation"
         ev = AbsEval(F)
         da = F.crates[CR]["debug_assertions"]
         want = {"all_validations": False, "no_validations": True}
@@ -36,7 +60,7 @@ def run(ctx):
                 continue
             for f in SW:
                 n += 1
-                got = ev.ret_field(b, ("validation", f))
+                got = ev.ret_field(b, (VF, f))
                 prof_name = "debug-assertions-%s" % ("on" if da else "off")
                 ctx.check(got == {val}, "R08.1", "%s#%s=%s@%s" % (fnkey(b), f, str(val).lower(), prof_name), loc(b),
                           "`Emf::%s` yields a formatter with %s = %s under %s: %s" % (
@@ -49,21 +73,21 @@ def run(ctx):
         bu = F.body("metrique_writer_format_emf::emf::Emf::builder")
         if bb_ is not None and bu is not None:
             for f in SW:
-                got = ev._local(bu, 0, ("validation", f), [], 0, frozenset())
+                got = ev._local(bu, 0, (VF, f), [], 0, frozenset())
                 ctx.check(got == {not da}, "R08.1", "%s#default-%s@debug-assertions-%s" % (fnkey(bu), f, "on" if da else "off"), loc(bu),
                           "builder default for %s is %s, documented: validate iff debug assertions are enabled" % (f, sorted(map(str, got))))
             # build() preserves the builder's validation
             for f in SW:
-                got = ev._local(bb_, 0, ("validation", f), [lambda fs: ({True} if fs == ("validation", f) else {TOP})], 0, frozenset())
-                got2 = ev._local(bb_, 0, ("validation", f), [lambda fs: ({False} if fs == ("validation", f) else {TOP})], 0, frozenset())
+                got = ev._local(bb_, 0, (VF, f), [lambda fs: ({True} if fs == (VF, f) else {TOP})], 0, frozenset())
+                got2 = ev._local(bb_, 0, (VF, f), [lambda fs: ({False} if fs == (VF, f) else {TOP})], 0, frozenset())
                 ctx.check(got == {True} and got2 == {False}, "R08.1", "%s#preserves-%s@%s" % (fnkey(bb_), f, prof), loc(bb_),
                           "EmfBuilder::build does not carry the builder's %s into the formatter unchanged (%s/%s)" % (f, got, got2))
         sk = F.body("metrique_writer_format_emf::emf::EmfBuilder::skip_all_validations")
         if sk is not None:
             for f in SW:
-                on = ev._local(sk, 0, ("validation", f), [lambda fs: {False}, lambda fs: {True}], 0, frozenset())
-                off = ev._local(sk, 0, ("validation", f), [lambda fs: {True}, lambda fs: {False}], 0, frozenset())
-                keep = ev._local(sk, 0, ("validation", f), [lambda fs: {False}, lambda fs: {False}], 0, frozenset())
+                on = ev._local(sk, 0, (VF, f), [lambda fs: {False}, lambda fs: {True}], 0, frozenset())
+                off = ev._local(sk, 0, (VF, f), [lambda fs: {True}, lambda fs: {False}], 0, frozenset())
+                keep = ev._local(sk, 0, (VF, f), [lambda fs: {False}, lambda fs: {False}], 0, frozenset())
                 ctx.check(on == {True} and off == {True} and keep == {False}, "R08.1", "%s#only-turns-skipping-on-%s@%s" % (fnkey(sk), f, prof), loc(sk),
                           "skip_all_validations(%s): true->%s, keeps-true->%s, false-keeps-false->%s" % (f, on, off, keep))
 
@@ -318,7 +342,8 @@ def run(ctx):
 
     n6 = 0
     for b in F.all_bodies(CR):
-        if not (c02.in_scope(b) and b.name == "config"):
+        # (the adoption may sit in `config` itself or in a private method it delegates to: every body storing into the field is judged)
+        if not c02.in_scope(b) or b.kind == "Closure":
             continue
         pr = Prov(b)
         regs = [c for c in b.calls() if c.name in ("entry_ref", "entry", "insert", "raw_entry_mut") and on_map(b, pr, c)]
